@@ -274,6 +274,8 @@ LINES = {
     "fac": ("fac", True),                            # handler configured through a factory
     "paint": ("paint", True),                        # registers a style on the formatters of its own run's IO
     "show": ("show", True),                          # writes that tag without registering it
+    "alias": ("ff a -o", True),                      # the command named by its second alias
+    "valid-noopt": ("foo a", True),                  # same command and argument as "valid", without the option
     # spares: VERIF_SEED rotates exactly one of them into the full alphabet
     "valid-ansi": ("foo a --ansi", True),
     "help-top": ("help top", True),
@@ -284,7 +286,7 @@ LINES = {
 }
 CORE = ["valid", "bad-option", "too-many", "help", "help-foo", "help-len", "foo-h", "version", "unknown",
         "len-surplus", "raise-vvv", "sub", "raise-vvv-ascii", "dflt-too-many", "help-dflt-too-many",
-        "help-top-sub", "help-other-sub", "fac", "paint", "show"]
+        "help-top-sub", "help-other-sub", "fac", "paint", "show", "alias", "valid-noopt"]
 CORE_REDUCED = ["valid", "help-len", "len-surplus", "help-dflt-too-many", "dflt-too-many", "version", "raise-vvv"]
 REDUCED_ROT = ["too-many", "foo-h", "bad-option", "help-foo", "unknown", "sub", "raise-vvv-ascii", "help"]
 SPARES = ["valid-ansi", "help-top", "top-h", "len-h", "valid-quiet", "top"]
@@ -304,6 +306,8 @@ def build_app(mode):
     c.set_terminate_after_run(False)
     with c.command("foo") as f:  # strict: one argument + one option
         f.set_description("The foo command")
+        f.add_alias("fo")
+        f.add_alias("ff")
         f.add_argument("arg", Argument.OPTIONAL, "An argument")
         f.add_option("opt", "o", Option.NO_VALUE, "An option")
         f.set_handler(handler("foo"))
